@@ -1020,6 +1020,11 @@ func opValueChangeJournal(ctx context.Context, pc *uint64, interpreter *EVMInter
 		return nil, errors.New("type size out of range")
 	}
 
+	// the packed field must lie within the 32-byte word
+	if offsetU64+typeSizeU64 > 32 {
+		return nil, errors.New("offset and type size exceed the storage slot")
+	}
+
 	contract := scope.Contract.Address()
 	newVal := interpreter.evm.StateDB.GetState(contract, storageSlot.Bytes32())
 	start, end := 32-offsetU64-typeSizeU64, 32-offsetU64
